@@ -1924,8 +1924,11 @@ impl StorageEngine {
                 Value::String(bytes) => {
                     let len = bytes.len() as isize;
                     
-                    // Normalise in signed arithmetic: an end before the first byte
-                    // stays negative and selects nothing
+                    // Redis' normalisation, in signed arithmetic
+                    if start < 0 && end < 0 && start > end {
+                        return Ok(Vec::new());
+                    }
+                    
                     let start = if start < 0 {
                         std::cmp::max(0, len + start)
                     } else {
@@ -1933,12 +1936,13 @@ impl StorageEngine {
                     };
                     
                     let end = if end < 0 {
-                        len + end
+                        std::cmp::max(0, len + end)
                     } else {
-                        std::cmp::min(end, len - 1)
+                        end
                     };
+                    let end = std::cmp::min(end, len - 1);
                     
-                    if start > end || start >= len {
+                    if len == 0 || start > end {
                         Vec::new()
                     } else {
                         bytes[start as usize..=end as usize].to_vec()
